@@ -1,6 +1,6 @@
 (* C10: s2m lists each record's runs; m2s is its exact inversion; independent of the interleaving. *)
 From Coq Require Import NArith ZArith List.
-From KT Require Import Gen.Generated Gen.Alphabet Gen.GeneratedFacts Model.Kmer Model.Ops Model.Rows Model.Pipeline.
+From KT Require Import Gen.Generated Gen.Alphabet Gen.FactsBase Gen.FactLetters Gen.FactTableMinimiser Model.Kmer Model.Ops Model.Rows Model.Pipeline.
 From KT Require Import Proof.ItemsSched Proof.ItemsTrace Proof.MinAbs Proof.MinSpec Proof.MinConc Proof.MinExt Proof.MinFast Proof.FileSpecProof.
 Import ListNotations.
 Open Scope N_scope.
